@@ -219,7 +219,7 @@ theorem rubygems_spec (a b : V) (ha : a.wf = true) (hb : b.wf = true) :
   obtain ⟨aw, an⟩ := split a ha
   obtain ⟨bw, bn⟩ := split b hb
   show rubygemsFam.compareStr (render a) (render b) = _
-  simp only [Family.compareStr, Family.cmpParsed, rubygemsFam, CRes.toOutcome, rubySegs_render a aw an, rubySegs_render b bw bn]
+  simp only [Family.compareStr, Family.cmpParsed, rubygemsFam_parse, rubygemsFam_cmp, CRes.toOutcome, rubySegs_render a aw an, rubySegs_render b bw bn]
   congr 1
   unfold cmpRuby RubySpec.specCmp
   have hpad : Seg.render (.num 0) = ['0'] := rfl
